@@ -80,8 +80,10 @@ struct Ctx
   // Record the case about to be executed in <out>.current (one pwrite).  If the process then dies
   // (sanitizer abort, SIGSEGV) the driver turns the recorded case into a "crash;<key>" violation and
   // confirms it by replaying it in a fresh process.
+  std::vector<std::string> first_cases; // fall-back samples: the first cases announced through current()
   void current(const std::string& key, const std::string& kase)
   {
+    if (first_cases.size() < 3 && !kase.empty()) first_cases.push_back(kase.substr(0, 400));
     if (out.empty()) return;
     if (cur_fd < 0) cur_fd = ::open((out + ".current").c_str(), O_CREAT | O_WRONLY | O_TRUNC, 0644);
     if (cur_fd < 0) return;
@@ -135,6 +137,7 @@ struct Ctx
   }
   int finish()
   {
+    if (samples.empty()) samples = first_cases; // a harness that wrote no samples of its own: the first executed cases
     if (!out.empty())
       {
         std::ofstream f(out);
